@@ -237,22 +237,8 @@ def merge_and_product(chk, rid):
   chk.ob(rid, whole, None,
          'disjunction of DNFs is the concatenation of the alternatives',
          'alternatives of a disjunction are not all kept', fi=dj)
+  every_body_normalised(chk, rid)
   r2r = repo.func('parse.DisjunctiveNormalForm.RuleToRules')
-  # every rule body goes through PropositionToDNF - it also flattens nested
-  # conjunctions (parenthesised groups), which the later stages do not accept
-  r2v = FnView(repo, 'parse.DisjunctiveNormalForm.RuleToRules')
-  dnf_calls = [n for n, c in r2v.all_calls() if call_tail(c) == 'PropositionToDNF']
-  def no_body(e, val):
-    return isinstance(e, ast.Compare) and len(e.ops) == 1 and const_str(e.left) == 'body' and (
-        (isinstance(e.ops[0], ast.NotIn) and val) or (isinstance(e.ops[0], ast.In) and not val))
-  body_rets = [n for n, r in r2v.returns()
-               if not any(no_body(e, val) for e, val in r2v.guards(n))]
-  chk.ob(rid, bool(dnf_calls) and all(n in dnf_calls or r2v.cfg.must_pass_before(n, dnf_calls)
-                                      for n in body_rets),
-         None, 'every rule with a body is rewritten through PropositionToDNF',
-         'a path of RuleToRules returns the rule without normalising its body: '
-         'nested conjunctions (parenthesised groups of conjuncts) survive and are '
-         'rejected or mistranslated later', fi=r2r)
 
   def deepcopies(fi_, depth=2):
     n_ = 0
@@ -612,3 +598,24 @@ def _is_message(fn, const):
       if any(c is const for c in ast.walk(x.msg)):
         return True
   return False
+
+
+def every_body_normalised(chk, rid):
+  repo = chk.repo
+  r2r = repo.func('parse.DisjunctiveNormalForm.RuleToRules')
+  # every rule body goes through PropositionToDNF - it also flattens nested
+  # conjunctions (parenthesised groups), which the later stages do not accept
+  r2v = FnView(repo, 'parse.DisjunctiveNormalForm.RuleToRules')
+  dnf_calls = [n for n, c in r2v.all_calls() if call_tail(c) == 'PropositionToDNF']
+  def no_body(e, val):
+    return isinstance(e, ast.Compare) and len(e.ops) == 1 and const_str(e.left) == 'body' and (
+        (isinstance(e.ops[0], ast.NotIn) and val) or (isinstance(e.ops[0], ast.In) and not val))
+  body_rets = [n for n, r in r2v.returns()
+               if not any(no_body(e, val) for e, val in r2v.guards(n))]
+  chk.ob(rid, bool(dnf_calls) and all(n in dnf_calls or r2v.cfg.must_pass_before(n, dnf_calls)
+                                      for n in body_rets),
+         None, 'every rule with a body is rewritten through PropositionToDNF',
+         'a path of RuleToRules returns the rule without normalising its body: '
+         'nested conjunctions (parenthesised groups of conjuncts) survive and are '
+         'rejected or mistranslated later', fi=r2r)
+
